@@ -367,8 +367,6 @@ def run_case(case, out):
                     # the sends are in flight when shutdown starts: the failing ones finish first (flush is already
                     # waiting), the others stay parked well beyond the moment a non-draining shutdown would return
                     def staged():
-                        if late:
-                            pass
                         if op.get('late_submit'):
                             t1 = time.time()
                             while not late.get('submitted') and 'error' not in late and time.time() - t1 < 10:
